@@ -259,7 +259,8 @@ def main():
         if len(chk.samples) < 4 and o["obl"] > 3:
             chk.sample({"case": case["id"], "meta": case["meta"], "obligations": o["obl"], "counts": o.get("counts")})
     chk.cov["rule"] = ("total trees only: seeded pipelines compose / apply_func / eliminate (<= 5 operations, from generated total trees, "
-                       "affine maps with dependent rows, from_poly with else-branch), ending in two eliminations; distilled ReLU "
+                       "affine maps with dependent rows, from_poly with else-branch), ending in two eliminations; five hand-built thin cascades "
+                       "(flat / 2^-16 / 2^-17 slab above a branch empty by a gap of 2^-15 .. 2^-14); distilled ReLU "
                        "networks with <= 6 (7) units; non-trivial = the elimination removed something / some activation pattern is empty")
     chk.cov["explanation"] = ("after infeasible_elimination z3 decides for every surviving non-root node that its closed path region "
                               "relaxed by tau=1e-6 is non-empty; no decision below the root has a single branch; a second elimination "
